@@ -85,7 +85,8 @@ Ltac sp_norm :=
   | rewrite ordinal2ymddo_ok by (try assumption; range)
   | rewrite next_year_after_ok by assumption
   | rewrite prev_year_before_ok by assumption
-  | rewrite year_length_ok by assumption ].
+  | rewrite year_length_ok by assumption
+  | progress cmp_simpl ].
 
 Theorem succ_ok c j : ValidCal c -> in_i32 j ->
   Date_succ (date_of c j) = Ret (if j <? i32_max then Some (date_of c (j + 1)) else None).
